@@ -60,6 +60,7 @@ type checkOpts struct {
 	dump     string
 	workers  int
 	seed     int64
+	noReplay bool
 }
 
 func cmdCheck(args []string) int {
@@ -73,6 +74,7 @@ func cmdCheck(args []string) int {
 	fs.StringVar(&o.keep, "keep", "", "keep SMT files in this directory")
 	fs.StringVar(&o.dump, "dump", "", "dump SSA of this function and exit")
 	fs.IntVar(&o.workers, "j", 16, "parallel solver processes")
+	fs.BoolVar(&o.noReplay, "no-replay", false, "do not replay counterexamples (development)")
 	fs.Parse(args)
 	if t := os.Getenv("VERIF_TIER"); t != "" && o.tier == "" {
 		o.tier = t
